@@ -52,6 +52,12 @@ def run_case(ctx, idx, rng, tier):
             cat.append(("own-variable-refused", {"op": "add_eom_pulse", "ch": nm if not g.chans[nm]["eom"] else "nope",
                                                  "duration": {"e": "var", "name": "cv"}, "phase": 0.0}))
             cat.append(("own-variable-refused", {"op": "align", "chs": [nm]}))
+            # an own variable first, then one of another sequence: refused for the second, after the first was accepted
+            b0 = sorted({c["basis"] for c in g.chans.values()})[0]
+            cat.append(("own-then-foreign-variable", {"op": "phase_shift", "phi": {"e": "var", "name": "cv"},
+                                                      "targets": [{"e": "foreign", "name": "fv"}], "basis": b0}))
+            cat.append(("own-then-foreign-variable", {"op": "add_eom_pulse", "ch": nm, "duration": {"e": "var", "name": "cv"},
+                                                      "phase": {"e": "foreign", "name": "fv"}}))
         rng.shuffle(cat)
         for kind, bad in cat[:k_inject]:
             bad = dict(bad, _inv=kind)
